@@ -446,26 +446,32 @@ Definition agree_on (P Q : problem) (MP MQ : metric) (l0P l0Q : fstate) (plan : 
   ostate_eq (run P (spec_step false P) (st_of l0P) plan) (run Q (spec_step false Q) (st_of l0Q) plan) /\
   valid_plan false P (st_of l0P) plan = valid_plan false Q (st_of l0Q) plan.
 
+Lemma bisim_check_with_inv vb P Q MP MQ sigsP sigsQ l0P l0Q :
+  (forall w tr i, bisim_check_with vb P Q MP MQ sigsP sigsQ l0P l0Q <> BFail w tr i) ->
+  objs_agree P Q = true /\ sigs_agree sigsP sigsQ = true /\ metric_kind_eqb MP MQ = true /\
+  state_list_eqb l0P l0Q = true /\
+  exists V b, cert_ok P Q (qm_m MP) (qm_m MQ) (all_insts P sigsP) V b l0P = true /\
+              bisim_check_with vb P Q MP MQ sigsP sigsQ l0P l0Q = (if cert_closed V b then BClosed else BBounded b).
+Proof.
+  unfold bisim_check_with. intros H.
+  destruct (objs_agree P Q); cbn [negb] in *; [|exfalso; eapply H; reflexivity].
+  destruct (sigs_agree sigsP sigsQ); cbn [negb] in *; [|exfalso; eapply H; reflexivity].
+  destruct (metric_kind_eqb MP MQ); cbn [negb] in *; [|exfalso; eapply H; reflexivity].
+  destruct (state_list_eqb l0P l0Q); cbn [negb] in *; [|exfalso; eapply H; reflexivity].
+  cbv zeta in *.
+  destruct (cert_ok P Q (qm_m MP) (qm_m MQ) (all_insts P sigsP) (fst vb) (snd vb) l0P) eqn:C.
+  - repeat split; auto. exists (fst vb), (snd vb). split; [exact C | reflexivity].
+  - exfalso. destruct (first_bad P Q (qm_m MP) (qm_m MQ) (all_insts P sigsP) (fst vb) (snd vb)) as [[[w tr] i]|];
+      eapply H; reflexivity.
+Qed.
+
 Lemma bisim_check_inv P Q MP MQ sigsP sigsQ l0P l0Q n cap :
   (forall w tr i, bisim_check P Q MP MQ sigsP sigsQ l0P l0Q n cap <> BFail w tr i) ->
   objs_agree P Q = true /\ sigs_agree sigsP sigsQ = true /\ metric_kind_eqb MP MQ = true /\
   state_list_eqb l0P l0Q = true /\
   exists V b, cert_ok P Q (qm_m MP) (qm_m MQ) (all_insts P sigsP) V b l0P = true /\
               bisim_check P Q MP MQ sigsP sigsQ l0P l0Q n cap = (if cert_closed V b then BClosed else BBounded b).
-Proof.
-  unfold bisim_check. intros H.
-  destruct (objs_agree P Q); cbn [negb] in *; [|exfalso; eapply H; reflexivity].
-  destruct (sigs_agree sigsP sigsQ); cbn [negb] in *; [|exfalso; eapply H; reflexivity].
-  destruct (metric_kind_eqb MP MQ); cbn [negb] in *; [|exfalso; eapply H; reflexivity].
-  destruct (state_list_eqb l0P l0Q); cbn [negb] in *; [|exfalso; eapply H; reflexivity].
-  cbv zeta in *.
-  set (root := {| n_rank := 0; n_trace := []; n_st := l0P |}) in *.
-  set (vb := explore P (all_insts P sigsP) cap n 0 [root] [root]) in *.
-  destruct (cert_ok P Q (qm_m MP) (qm_m MQ) (all_insts P sigsP) (fst vb) (snd vb) l0P) eqn:C.
-  - repeat split; auto. exists (fst vb), (snd vb). split; [exact C | reflexivity].
-  - exfalso. destruct (first_bad P Q (qm_m MP) (qm_m MQ) (all_insts P sigsP) (fst vb) (snd vb)) as [[[w tr] i]|];
-      eapply H; reflexivity.
-Qed.
+Proof. apply bisim_check_with_inv. Qed.
 
 Lemma metric_kind_class MP MQ : metric_kind_eqb MP MQ = true -> mclass (qm_m MP) = mclass (qm_m MQ).
 Proof. unfold metric_kind_eqb. rewrite andb_true_iff. intros [_ H]. apply N.eqb_eq, H. Qed.
